@@ -247,8 +247,8 @@ def check(run):
     run.prove(extra_targets=["theories/Base/Util.vo", "theories/Model/PyVal.vo", "theories/Model/Matcher.vo",
                              "theories/gen/TablesMatchers.vo", "theories/Model/Describe.vo"])
     quick = run.tier == "quick"
-    n_corr = 900 if quick else 30000
-    n_frag = 1500 if quick else 60000
+    n_corr = 900 if quick else 60000
+    n_frag = 1500 if quick else 150000
     dom = G.value_domain(run.rng, 29)
 
     # ---- known findings: replay every recorded witness on the implementation
